@@ -11,7 +11,6 @@ import (
 	"regexp"
 	"runtime"
 	"runtime/debug"
-	"sort"
 	"strconv"
 	"strings"
 	"syscall"
@@ -280,54 +279,12 @@ func cpuMillis() int64 {
 	return (ru.Utime.Sec+ru.Stime.Sec)*1000 + int64(ru.Utime.Usec+ru.Stime.Usec)/1000
 }
 
-// normalize removes exactly the run-to-run variation of known finding F-C02-1
-// (compile.popScope reports unreferenced let clauses / aliases in map order, so
-// the ORDER of these errors in the raw list, and therefore which of them is
-// quoted as "first error ... (and N more errors)" by exporters, varies):
-//   - on every line that carries that message, the clause name and the
-//     in.cue:L:C positions are blanked;
-//   - a position-only line directly below such a line is blanked;
-//   - inside a "-- raw" error block those lines are moved, sorted, to the end.
-// Lines that do not mention the message are never touched, so two transcripts
-// with equal normal forms differ only in which unreferenced clause comes first.
+// normalize used to remove the run-to-run variation of finding F-C02-1 (compile.popScope reported
+// unreferenced let clauses / aliases in map order).  F-C02-1 is FIXED in /repo (fix: commit ff805e5,
+// popScope iterates over the sorted names), so nothing is normalised any more: any difference between
+// two transcripts of one input, including the order of these errors, is a violation.
 func normalize(s string) string {
-	if !strings.Contains(s, unrefLetMsg) {
-		return s
-	}
-	lines := strings.Split(s, "\n")
-	out := make([]string, 0, len(lines))
-	var held []string
-	inRaw, prevMsg := false, false
-	flush := func() {
-		sort.Strings(held)
-		out = append(out, held...)
-		held = held[:0]
-	}
-	for _, l := range lines {
-		if inRaw && (strings.HasPrefix(l, "== ") || strings.HasPrefix(l, "err:") || !strings.Contains(l, " | path=")) {
-			flush()
-			inRaw = false
-		}
-		if l == "-- raw" {
-			inRaw = true
-		}
-		hasMsg := strings.Contains(l, unrefLetMsg)
-		switch {
-		case hasMsg:
-			l = unrefNameRe.ReplaceAllString(l, unrefLetMsg+"?")
-			l = posRe.ReplaceAllString(l, "in.cue:?:?")
-		case prevMsg && posOnlyRe.MatchString(l):
-			l = "    in.cue:?:?"
-		}
-		prevMsg = hasMsg
-		if inRaw && hasMsg {
-			held = append(held, l)
-			continue
-		}
-		out = append(out, l)
-	}
-	flush()
-	return strings.Join(out, "\n")
+	return s
 }
 
 const unrefLetMsg = "unreferenced alias or let clause "
